@@ -1713,6 +1713,18 @@ struct Explorer {
         }
       }
     }
+    if (op.tool && !op.tool_args.empty() && r.exit_code != 0 && r.out.find("unknown target") != string::npos) {
+      // "the same targets": a name the build (and the dry run) accepts names the same node to every tool
+      bool all_known = true;
+      for (auto& t : op.tool_args) if (!v->producer.count(t) && !before.Get(t)) all_known = false;
+      if (all_known) {
+        Violation x; x.prop = "C19"; x.clause = "tool-rejects-a-target-the-build-accepts";
+        size_t at = r.out.find("unknown target");
+        x.detail = "'" + op.label + "' refuses a target that a build accepts: " + r.out.substr(at, r.out.find('\n', at) - at);
+        x.facts.set("tool", op.tool_kind);
+        out->push_back(x);
+      }
+    }
     if (op.tool_kind == "commands" && r.exit_code == 0) {
       // -t commands [targets]: every command of the closure, producers first
       vector<string> lines;
